@@ -120,3 +120,69 @@ VENTRY(h_boundary)
     vcheck_eq(B->u_D(p.r, p.th, p.s, p.c), U->exact_solution(p.r, p.th, p.s, p.c), "u_D=exact-solution", pr * 3 + g);
     vcheck_eq(B->u_D_Interior(p.r, p.th, p.s, p.c), U->exact_solution(p.r, p.th, p.s, p.c), "u_D_Interior=exact-solution", pr * 3 + g);
 }
+
+// ---------------------------------------------------------------------------------------------------------------
+// source term = -div(alpha grad u) + beta u in the metric of the mapping (Poisson coefficients: alpha = 1, beta = 0).
+#include "InputFunctions/DensityProfileCoefficients/poissonCoefficients.h"
+#include "InputFunctions/SourceTerms/cartesianR2_Poisson_CircularGeometry.h"
+#include "InputFunctions/SourceTerms/cartesianR6_Poisson_CircularGeometry.h"
+#include "InputFunctions/SourceTerms/polarR6_Poisson_CircularGeometry.h"
+#include "InputFunctions/SourceTerms/cartesianR2_Poisson_ShafranovGeometry.h"
+#include "InputFunctions/SourceTerms/cartesianR6_Poisson_ShafranovGeometry.h"
+#include "InputFunctions/SourceTerms/polarR6_Poisson_ShafranovGeometry.h"
+
+struct Problem { std::unique_ptr<DomainGeometry> G; std::unique_ptr<ExactSolution> U; std::unique_ptr<SourceTerm> F; std::unique_ptr<DensityProfileCoefficients> P; };
+static Problem problem(int pr, int g)
+{
+    const double Rmax = 1.3, k = 0.3, d = 0.2;
+    Problem p;
+    p.P = std::make_unique<PoissonCoefficients>(Rmax, 0.0);
+    p.G = geometry(g, Rmax, k, d);
+    if (pr == 0 && g == 0) { p.U = std::make_unique<CartesianR2_CircularGeometry>(Rmax); p.F = std::make_unique<CartesianR2_Poisson_CircularGeometry>(Rmax); }
+    if (pr == 1 && g == 0) { p.U = std::make_unique<CartesianR6_CircularGeometry>(Rmax); p.F = std::make_unique<CartesianR6_Poisson_CircularGeometry>(Rmax); }
+    if (pr == 2 && g == 0) { p.U = std::make_unique<PolarR6_CircularGeometry>(Rmax); p.F = std::make_unique<PolarR6_Poisson_CircularGeometry>(Rmax); }
+    if (pr == 0 && g == 1) { p.U = std::make_unique<CartesianR2_ShafranovGeometry>(Rmax, k, d); p.F = std::make_unique<CartesianR2_Poisson_ShafranovGeometry>(Rmax, k, d); }
+    if (pr == 1 && g == 1) { p.U = std::make_unique<CartesianR6_ShafranovGeometry>(Rmax, k, d); p.F = std::make_unique<CartesianR6_Poisson_ShafranovGeometry>(Rmax, k, d); }
+    if (pr == 2 && g == 1) { p.U = std::make_unique<PolarR6_ShafranovGeometry>(Rmax, k, d); p.F = std::make_unique<PolarR6_Poisson_ShafranovGeometry>(Rmax, k, d); }
+    return p;
+}
+// flux components at a point; du/dr and du/dtheta are supplied (formal derivatives in the engine, finite differences natively)
+static void fluxes(const Problem& p, double r, double th, double s, double c, double ur, double ut, double& fr, double& ft, double& adet)
+{
+    const double Jrr = p.G->dFx_dr(r, th, s, c), Jtr = p.G->dFy_dr(r, th, s, c), Jrt = p.G->dFx_dt(r, th, s, c), Jtt = p.G->dFy_dt(r, th, s, c);
+    const double det = Jrr * Jtt - Jrt * Jtr;
+    adet = fabs(det);
+    const double al = p.P->alpha(r);
+    const double Arr = al * (Jtt * Jtt + Jrt * Jrt) / adet, Att = al * (Jtr * Jtr + Jrr * Jrr) / adet, Art = -al * (Jtt * Jtr + Jrt * Jrr) / adet;
+    fr = Arr * ur + Art * ut;
+    ft = Art * ur + Att * ut;
+}
+// a: problem (0 CartesianR2, 1 CartesianR6, 2 PolarR6), geometry (0 Circular, 1 Shafranov)
+VENTRY(h_source_term)
+{
+    Problem p = problem(a[0], a[1]);
+    Pt q = point(false);
+    vreach("classes-built");
+    const double rhs = p.F->rhs_f(q.r, q.th, q.s, q.c);
+    if (vis_symbolic()) {
+        const double u = p.U->exact_solution(q.r, q.th, q.s, q.c);
+        double fr, ft, adet;
+        fluxes(p, q.r, q.th, q.s, q.c, vdiff(u, "r"), vdiff(u, "theta"), fr, ft, adet);
+        const double lhs = 0.0 - (vdiff(fr, "r") + vdiff(ft, "theta")) / adet + p.P->beta(q.r) * u;
+        vcheck_eq_fd(lhs, rhs, "source-term=-div(alpha*grad(u))+beta*u", a[0] * 4 + a[1], 0.0);
+        return;
+    }
+    // native: the same operator by nested central differences
+    auto U = [&](double r, double t) { return p.U->exact_solution(r, t, sin(t), cos(t)); };
+    const double h = 1e-4, H = 1e-3;
+    auto FL = [&](double r, double t, bool radial) {
+        double fr, ft, adet;
+        fluxes(p, r, t, sin(t), cos(t), (U(r + h, t) - U(r - h, t)) / (2 * h), (U(r, t + h) - U(r, t - h)) / (2 * h), fr, ft, adet);
+        return radial ? fr : ft;
+    };
+    double fr0, ft0, adet;
+    fluxes(p, q.r, q.th, q.s, q.c, 0.0, 0.0, fr0, ft0, adet);
+    const double div = (FL(q.r + H, q.th, true) - FL(q.r - H, q.th, true)) / (2 * H) + (FL(q.r, q.th + H, false) - FL(q.r, q.th - H, false)) / (2 * H);
+    const double fd = 0.0 - div / adet + p.P->beta(q.r) * U(q.r, q.th);
+    vcheck_eq_fd(0.0, rhs, "source-term=-div(alpha*grad(u))+beta*u", a[0] * 4 + a[1], fd);
+}
